@@ -121,7 +121,7 @@ def run_scenario(mod, sc):
 
 
 def case_digest(sc) -> str:
-    d = {k: v for k, v in sc.items() if k not in ("violation", "minimised", "note")}
+    d = {k: v for k, v in sc.items() if k not in ("violation", "minimised", "note", "schedule_trace")}
     return sha(canon(d))
 
 
@@ -151,6 +151,8 @@ def explore(args):
                 out = run_scenario(mod, sc)
                 rec["wall"] = round(time.monotonic() - t0, 4)
                 rec.update(out.to_json())
+                if not out.violations:
+                    rec["extra"].pop("schedule_trace", None)
                 if out.violations:
                     rec["scenario"] = sc
                     # recorded (known) findings must not use up the worker's violation budget
@@ -228,6 +230,13 @@ def shrink(args):
                     break
         cur = dict(cur)
         cur["violation"] = v0
+        try:   # informational: the first schedule decisions of the minimised scenario (replay re-derives them from the sub-seeds)
+            o = run_scenario(mod, {k: v for k, v in cur.items() if k not in ("violation", "schedule_trace")})
+            tr = o.extra.get("schedule_trace")
+            if tr:
+                cur["schedule_trace"] = {"format": "[simulated run no, policy, worker/thread index, quantum in line events]", "first_decisions": tr}
+        except Exception:
+            pass
         cur["minimised"] = {
             "candidates_tried": tried,
             "accepted": accepted,
